@@ -147,6 +147,10 @@ class PFold(Fold):
             m = re.match(r"^\$(\w+)\[(.*)\]$", op.arg or "")
             if m:
                 return self.elem(m.group(1), self.idx_value(m.group(2), env))
+            m = re.match(r"^\$(\w+)->\[(.*)\]$", op.arg or "")
+            if m and str(env.get("$" + m.group(1), "")).startswith("@"):
+                # element of an array handed over by reference
+                return self.elem(str(env["$" + m.group(1)]), self.idx_value(m.group(2), env))
             return S("multideref(%s)" % op.arg)
         if n in ("aelem", "ex-aelem"):
             if len(ks) == 1:
@@ -172,6 +176,9 @@ class PFold(Fold):
             if arr is not None and arr.name in ("rv2av", "ex-rv2av"):
                 g = [k for k in P.walk(arr) if k.name == "gv"]
                 nm = "@" + (g[0].arg or "").lstrip("*") if g else nm
+                sv = [k for k in P.walk(arr) if k.name == "padsv"]
+                if not g and len(sv) == 1 and str(env.get(padname(sv[0]), "")).startswith("@"):
+                    nm = str(env[padname(sv[0])])          # $#{$ref} of an array handed over by reference
             return Fn("last")(S(nm))
         if n in ("padav", "ex-padav"):
             return S(padname(op))
@@ -201,6 +208,18 @@ class PFold(Fold):
         if n == "match":
             rx = re.search(r"/(.*)/", op.arg or "")
             tgt = self.ev(ks[0], env) if ks else S("$_")
+            rc = [k for k in ks[1:] if P.strip(k).name == "regcomp"]
+            if rc and not rx:
+                # pattern assembled at run time: known when every interpolated part is a string constant
+                parts = []
+                for k in P.walk(P.strip(rc[0])):
+                    if k.name == "const":
+                        parts.append(str(self.const(k)))
+                    elif k.name == "padsv":
+                        parts.append(str(env.get(padname(k), S(padname(k)))))
+                if parts and all(re.match(r'^"[^"]*"$', x) for x in parts):
+                    return ("match", tgt, S('/%s/' % "".join(x.strip('"') for x in parts)))
+                return ("match", tgt, S('/<dynamic:%s>/' % "".join(parts)))
             return ("match", tgt, S('/%s/' % (rx.group(1).strip('"') if rx else op.arg)))
         if n == "defined":
             return ("defined", self.ev(ks[0], env) if ks else S("?"))
@@ -241,6 +260,9 @@ class PFold(Fold):
             m = re.match(r"^\$(\w+)\[(.*)\]$", t.arg or "")
             if m:
                 return ("elem", "@" + m.group(1), self.idx_value(m.group(2), env))
+            m = re.match(r"^\$(\w+)->\[(.*)\]$", t.arg or "")
+            if m and str(env.get("$" + m.group(1), "")).startswith("@"):
+                return ("elem", str(env["$" + m.group(1)]), self.idx_value(m.group(2), env))
         if t.name in ("aelem", "ex-aelem"):
             ks = self.kids(t)
             if len(ks) >= 1 and P.strip(ks[0]).name in ("aelemfast", "aelemfast_lex"):
@@ -547,10 +569,11 @@ class PFold(Fold):
             a = S("%s@%s" % (name, lid))
             start[name] = (old, a)
             env[name] = a
+        desc["init"] = {nm: old for nm, (old, a) in start.items()}
         if head.name == "enteriter":
             desc["sym"] = env[desc["var"]]
+            desc["syms"] = {nm: a for nm, (old, a) in start.items()}
         else:
-            desc["init"] = {nm: old for nm, (old, a) in start.items()}
             cond = self.ev(cond_op, env)
             desc["cond"] = cond
             desc["syms"] = {nm: a for nm, (old, a) in start.items()}
@@ -580,8 +603,11 @@ class PFold(Fold):
         self.loop_stack.pop()
         del self.guards[mark:]
         desc["step"] = {nm: benv.get(nm) for nm in carried if nm in benv}
+        desc["after"] = {}
         for name, (old, a) in start.items():
             new = benv.get(name)
+            if not (new is None or new == a):
+                desc["after"][name] = S(name) if not self.loop_stack and self.depth == 0 else S("%s_after_%s" % (name, lid))
             env[name] = old if (new is None or new == a) else (S(name) if not self.loop_stack and self.depth == 0 else S("%s_after_%s" % (name, lid)))
         return None
 
